@@ -587,7 +587,7 @@ def run(ctx):
             if not dv[c]:
                 continue
             # searched among the schedules the simulation can impose (RestartGen), so that it can be replayed
-            r = ctx.model_check("RestartGen", "as-found:" + prop, workers=WORKERS, timeout=600,
+            r = ctx.model_check("RestartGen", "as-found:" + prop, workers=1, timeout=600,  # one worker: the same shortest counterexample every time
                                 cfg_text=cfg_gen(consts(["k1", "k2"], ["e1"], 0, 1, dv), "{0}", "{1}",
                                                  "PROPERTIES %s\nCONSTRAINT TickBound\n" % prop))
             if prop not in r.violated:
